@@ -100,6 +100,21 @@ func (in *Interp) posString() string {
 	return "?"
 }
 
+// forkSite names the innermost repo/harness source line on the call stack.
+func (in *Interp) forkSite() string {
+	f := in.cur
+	for f != nil {
+		if f.curInst != nil && f.curInst.Pos().IsValid() {
+			p := in.prog.Fset.Position(f.curInst.Pos())
+			if strings.HasPrefix(p.Filename, "/repo/") {
+				return fmt.Sprintf("%s:%d", shortFile(p.Filename), p.Line)
+			}
+		}
+		f = f.caller
+	}
+	return "?"
+}
+
 func shortFile(f string) string {
 	f = strings.TrimPrefix(f, "/repo/")
 	return f
@@ -123,6 +138,7 @@ func (in *Interp) decide(n int, cond func(i int) *Term) int {
 		return ch
 	}
 	first := -1
+	nw0 := len(in.newWork)
 	for i := 0; i < n; i++ {
 		c := cond(i)
 		if c.IsConst() && c.CU == 0 {
@@ -153,6 +169,10 @@ func (in *Interp) decide(n int, cond func(i int) *Term) int {
 	}
 	if first < 0 {
 		panic(&pathEnd{"infeasible"})
+	}
+	if len(in.newWork) > nw0 && in.cfg.Shared != nil {
+		// fork profile: which source location splits paths
+		in.cfg.Shared.noteFork(in.forkSite())
 	}
 	in.decisions = append(in.decisions, first)
 	in.assume(cond(first))
@@ -383,6 +403,7 @@ func (in *Interp) strLess(a, b Str) Bool {
 
 // equal is Go's == on arbitrary values, as a (possibly symbolic) Bool.
 func (in *Interp) equal(a, b Value) Bool {
+	a, b = force(a), force(b)
 	switch x := a.(type) {
 	case BV:
 		return in.bvEq(x, b.(BV))
@@ -549,11 +570,17 @@ func (in *Interp) global(g *ssa.Global) *Value {
 func (in *Interp) callFn(fn *ssa.Function, args []Value, env []Value) Value {
 	name := fn.String()
 	if intr, ok := intrinsics[name]; ok {
+		for i := range args {
+			args[i] = force(args[i])
+		}
 		return intr(in, fn, args)
 	}
 	if fn.Pkg != nil {
 		path := fn.Pkg.Pkg.Path()
 		if strings.HasSuffix(path, "/zz_verif/verif") {
+			for i := range args {
+				args[i] = force(args[i])
+			}
 			if r, ok := in.verifIntrinsic(fn, args); ok {
 				return r
 			}
@@ -843,6 +870,9 @@ func (in *Interp) invoke(cl *Closure, args []Value, env []Value) Value {
 }
 
 func (in *Interp) builtin(name string, args []Value) Value {
+	for i := range args {
+		args[i] = force(args[i])
+	}
 	switch name {
 	case "builtin:len":
 		switch x := args[0].(type) {
@@ -957,6 +987,7 @@ func (in *Interp) unop(fr *frame, x *ssa.UnOp) Value {
 }
 
 func (in *Interp) binop(op token.Token, xt types.Type, x, y Value, yt types.Type) Value {
+	x, y = force(x), force(y)
 	switch a := x.(type) {
 	case BV:
 		b, ok := y.(BV)
@@ -1104,6 +1135,7 @@ func (in *Interp) binop(op token.Token, xt types.Type, x, y Value, yt types.Type
 }
 
 func (in *Interp) convert(src, dst types.Type, v Value) Value {
+	v = force(v)
 	su, du := src.Underlying(), dst.Underlying()
 	switch d := du.(type) {
 	case *types.Basic:
@@ -1197,7 +1229,7 @@ func elemSize(v Value) int {
 		return 1
 	case Str:
 		return 16
-	case Slice:
+	case Slice, *LazySlice:
 		return 24
 	case Iface:
 		return 16
@@ -1283,7 +1315,7 @@ func zeroLike(v Value) Value {
 		return Bool{}
 	case Str:
 		return Str{}
-	case Slice:
+	case Slice, *LazySlice:
 		return Slice{Nil: true}
 	case *Value:
 		return (*Value)(nil)
@@ -1367,7 +1399,7 @@ func (in *Interp) makeSlice(fr *frame, x *ssa.MakeSlice) Value {
 }
 
 func (in *Interp) sliceOp(fr *frame, x *ssa.Slice) Value {
-	v := in.get(fr, x.X)
+	v := force(in.get(fr, x.X))
 	var length, capacity int
 	switch s := v.(type) {
 	case Str:
@@ -1438,7 +1470,7 @@ func (in *Interp) checkIndex(idx BV, n int) int {
 }
 
 func (in *Interp) indexAddr(fr *frame, x *ssa.IndexAddr) Value {
-	v := in.get(fr, x.X)
+	v := force(in.get(fr, x.X))
 	idx := in.get(fr, x.Index).(BV)
 	var elems []Value
 	switch s := v.(type) {
@@ -1563,6 +1595,7 @@ func (in *Interp) lookup(fr *frame, x *ssa.Lookup) Value {
 }
 
 func (in *Interp) rangeOp(v Value) Value {
+	v = force(v)
 	switch x := v.(type) {
 	case Str:
 		return &rangeIter{s: x, isStr: true}
@@ -1625,13 +1658,19 @@ func (in *Interp) next(x *ssa.Next, it *rangeIter) Value {
 		return r
 	}
 	tt := x.Type().(*types.Tuple)
+	zeroOf := func(t types.Type) Value {
+		if b, ok := t.(*types.Basic); ok && b.Kind() == types.Invalid {
+			return nil
+		}
+		return in.zero(t)
+	}
 	if it.m == nil || it.pos >= len(it.order) {
-		return Tuple{Bool{C: false}, in.zero(tt.At(1).Type()), in.zero(tt.At(2).Type())}
+		return Tuple{Bool{C: false}, zeroOf(tt.At(1).Type()), zeroOf(tt.At(2).Type())}
 	}
 	i := it.order[it.pos]
 	it.pos++
 	if i >= len(it.m.Keys) {
-		return Tuple{Bool{C: false}, in.zero(tt.At(1).Type()), in.zero(tt.At(2).Type())}
+		return Tuple{Bool{C: false}, zeroOf(tt.At(1).Type()), zeroOf(tt.At(2).Type())}
 	}
 	return Tuple{Bool{C: true}, copyVal(it.m.Keys[i]), copyVal(it.m.Vals[i])}
 }
